@@ -9,3 +9,5 @@ extern crate alloc;
 pub mod util;
 #[cfg(kani)]
 pub mod c11;
+#[cfg(kani)]
+pub mod c10;
